@@ -208,7 +208,8 @@ def pitch_instances(r):
     octv = r.choice([2.0, 0.5, 4.0])
     out.append(pair("octave", "melody.evaluate", (t, rf, t.copy(), ef),
                     (t, rf, t.copy(), ef * octv),
-                    tasks.draw_params(r, {"cent_tolerance": [100, 25, 50, 150]}),
+                    # (no value that a deviation of DEVS hits exactly: 25, 75, 100 cents are ties)
+                    tasks.draw_params(r, {"cent_tolerance": [80, 130, 50, 160]}),
                     "estimate x %r" % octv,
                     ntm + ("oct", octv), only=["Raw Chroma Accuracy"]))
     out.append(pair("sign", "melody.evaluate", (t, rf, t.copy(), ef),
